@@ -743,10 +743,81 @@ fn zst_section() -> Section {
     }
 }
 
+// ---- payloads that own further arcs: the release of one allocation re-enters the library from the payload's destructor
+struct ChainNode {
+    dc: instr::Dc,
+    next: CArc<ChainNode>,
+}
+
+/// a chain of `n` allocations, node i owning the only handle (or one of two handles) of node i + 1; `observer`: which node
+/// (if any) has a second handle that is released last; `opaque`: the head handle is converted to its opaque form first
+fn nested_case(n: usize, observer: Option<usize>, opaque: bool) -> CaseOut {
+    alloc::begin();
+    let r = std::panic::catch_unwind(|| -> Result<u64, (String, String)> {
+        let drops = instr::DropScope::new();
+        let mut next: CArc<ChainNode> = CArc::default();
+        let mut ids = vec![0usize; n];
+        let mut obs_handle: Option<CArc<ChainNode>> = None;
+        for i in (0..n).rev() {
+            let dc = instr::Dc::new(i as u64);
+            ids[i] = dc.id;
+            next = CArc::from(ChainNode { dc, next });
+            if observer == Some(i) {
+                obs_handle = Some(next.clone());
+            }
+        }
+        if opaque {
+            drop(next.into_opaque());
+        } else {
+            drop(next);
+        }
+        // every node up to (excluding) the observed one is gone, the observed one and everything behind it is alive
+        let alive_from = observer.unwrap_or(n);
+        for i in 0..n {
+            let want = if i < alive_from { 1 } else { 0 };
+            if drops.count(ids[i]) != want {
+                return Err(("arc:nested_release".into(), format!("chain of {} allocations (node i owns a handle of node i+1), head handle released{}: node {} was destroyed {} time(s), expected {} (counts {:?})", n, if opaque { " in opaque form" } else { "" }, i, drops.count(ids[i]), want, ids.iter().map(|d| drops.count(*d)).collect::<Vec<_>>())));
+            }
+        }
+        drop(obs_handle);
+        for i in 0..n {
+            if drops.count(ids[i]) != 1 {
+                return Err(("arc:nested_release".into(), format!("chain of {} allocations: after the last handle is gone node {} was destroyed {} time(s) (counts {:?})", n, i, drops.count(ids[i]), ids.iter().map(|d| drops.count(*d)).collect::<Vec<_>>())));
+            }
+        }
+        Ok(digest(&(n, observer, opaque)))
+    });
+    let rep = alloc::end();
+    match r {
+        Err(_) => CaseOut::bad("panic", "panicked".to_string()),
+        Ok(Err((s, d))) => CaseOut::bad(s, d),
+        Ok(Ok(o)) => CaseOut { obs: o, nontrivial: true, violation: alloc_violation(&rep) },
+    }
+}
+
+fn nested_section() -> Section {
+    Section {
+        name: "nested_payloads",
+        explore: Box::new(|cx: &Cx| {
+            let nmax = cx.tier.pick(6, 12);
+            cx.rule("nested_payloads", &format!("payloads that own further arcs: chains of 1..={} allocations in which node i holds a handle of node i + 1, optionally with a second (observer) handle on one node, head handle released directly / in opaque form: every node is destroyed exactly once, exactly when its last handle is gone (the release of one allocation re-enters the library from the payload's destructor); allocator balanced", nmax));
+            for n in 1..=nmax {
+                for observer in std::iter::once(None).chain((0..n).map(Some)) {
+                    for opaque in [false, true] {
+                        cx.eval("nested_payloads", &serde_json::json!({"n": n, "observer": observer, "opaque": opaque}), || nested_case(n, observer, opaque));
+                    }
+                }
+            }
+        }),
+        replay: Box::new(|c: &Value| nested_case(c["n"].as_u64().unwrap() as usize, c["observer"].as_u64().map(|v| v as usize), c["opaque"].as_bool().unwrap())),
+    }
+}
+
 fn main() {
     quiet_panics();
     let mut sections = sections_for::<()>("", false, 0);
     sections.push(zst_section());
+    sections.push(nested_section());
     sections.extend(sections_for::<()>("_handles_last", true, 0));
     sections.extend(sections_for::<A64>("_align64", false, 1));
     sections.extend(sections_for::<A64>("_align64_handles_last", true, 1));
